@@ -61,7 +61,7 @@ def gen(rng, depth, allow_cmp=True):
         if c < 0.5:
             return ("name", rng.choice(["a", "b", "c"]))
         if c < 0.7:
-            return ("num", rng.choice(["1", "2", "3", "0.5", "2.0", "1.5", "10", "0.25"]))
+            return ("num", rng.choice(["1", "2", "3", "0.5", "2.0", "1.5", "10", "0.25", "9007199254740993", "123456789.25"]))
         if c < 0.75:
             return ("py", rng.choice(["True", "False"]))
         return ("name", rng.choice(["a", "b"]))
@@ -376,7 +376,8 @@ def run_shard(i, n, tier, seed, m):
                  ("r1(a, k=1)", "r1(a, k=2)"), ("r1(a, 'u')", "r1(a, \"u\")"), ("r1(a, k='x  y')", "r1(a, k='x y')"),
                  ("r1(a, k=b == c)", "r1(a, k=b != c)"), ("I(a / b / c)", "I(a / (b / c))"), ("r1(r2(a))", "r1(a)"),
                  ("I(-a ** -b)", "I((-a) ** -b)"), ("I(a ** -b ** c)", "I((a ** -b) ** c)"), ("I(+a)", "I(a)"),
-                 ("I(- - a)", "I(a)")]
+                 ("I(- - a)", "I(a)"), ("r1(a, 9007199254740993)", "r1(a, 9007199254740992)"),
+                 ("r1(a, k=18014398509481985)", "r1(a, k=18014398509481984)")]
         for t1, t2 in fixed:
             for t in (t1, t2):
                 mo = re.fullmatch(r"I\((.*)\)", t)
